@@ -1,7 +1,7 @@
 (* C13 -- fun2par on ARBITRARY function values: output shapes for every geometry, and column-wise action of
    KLExpansion.fun2par and StepExpansion.fun2par on batches. *)
 From CV Require Import Base.Tac Base.Cmp Base.LinAlg Base.QcLin Model.C13_Geom Model.C13_Float
-     Proofs.C13_Lists Proofs.C13_Index Proofs.C13_Geom Proofs.C13_Step Proofs.C13_All.
+     Proofs.C13_Lists Proofs.C13_Index Proofs.C13_Geom Proofs.C13_Step Proofs.C13_MatMap Proofs.C13_All.
 From Coq Require Import QArith Qcanon.
 
 (* ---------------- KLExpansion.fun2par ---------------- *)
@@ -94,6 +94,7 @@ Fixpoint g_inv_ok (g : geom) : Prop :=
   | GCont2D n1 n2 => (2 <= n1 * n2)%nat
   | GImage r c _ _ => (0 < r * c)%nat
   | GMapped g' _ fi => fi <> None /\ g_inv_ok g'
+  | GMappedLin g' M Mi => (exists R, Mi = Some R /\ mat_cols R = length M /\ fshape g' = [length R]) /\ g_inv_ok g'
   | GKL N nm coefs _ dstM _ => (2 <= kl_modes N nm)%nat /\ length coefs = kl_modes N nm /\ length dstM = N
   | GStep N idx _ => Forall (fun ids => ids <> []) idx /\ (length idx <> 1)%nat
   end.
@@ -102,7 +103,7 @@ Fixpoint g_inv_ok (g : geom) : Prop :=
 Theorem g_fun2par_shape g : forall (f : arr Qc), g_inv_ok g -> shp f = fshape g -> length (dat f) = prodn (fshape g) ->
   exists p, g_fun2par g f = Some p /\ shp p = g_par_shape g /\ length (dat p) = g_par_dim g.
 Proof.
-  induction g as [n|n|n1 n2|r c o v|g IH fm fi|N nm coefs tau dstM idstM|N idx pr]; intros f Hok Hs Hl;
+  induction g as [n|n|n1 n2|r c o v|g IH fm fi|g IH M Mi|N nm coefs tau dstM idstM|N idx pr]; intros f Hok Hs Hl;
     unfold g_par_dim; cbn [g_par_shape g_fun2par fshape g_inv_ok] in *.
   - exists f. rewrite Hs in *. repeat split; assumption.
   - exists f. rewrite Hs in *. repeat split; assumption.
@@ -117,6 +118,9 @@ Proof.
       destruct o; [rewrite Hl; cbn; lia | rewrite to_F_length; cbn; lia].
   - destruct Hok as [Hfi Hok]. destruct fi as [f'|]; [|congruence].
     apply IH; [exact Hok | exact Hs | unfold arr_map; cbn [dat]; rewrite map_length; exact Hl].
+  - destruct Hok as [[R [-> [HR Hfs]]] Hok].
+    rewrite matmap_vec by (rewrite Hs, HR; reflexivity). cbn [obind].
+    apply IH; cbn [shp dat]; [exact Hok | symmetry; exact Hfs | rewrite qmatvec_length, Hfs; cbn [prodn fold_right]; rewrite Nat.mul_1_r; reflexivity].
   - destruct Hok as [Hm [Hc Hdl]].
     assert (Hdst : forall x, length x = N -> length (qmatvec dstM x) = N) by (intros x _; unfold qmatvec; rewrite matvec_length; exact Hdl).
     replace (prodn [N]) with N in Hl by (cbn; lia).
@@ -128,4 +132,35 @@ Proof.
     change (obind (step_fun2par N idx pr f) (fun r => option_map (mkArr (shp r)) (all_some (dat r)))) with (step_fun2par_total N idx pr f).
     rewrite step_fun2par_total_colwise by exact Hne. rewrite colwise_vec; try assumption; try apply step_fun2par_colQ_length.
     eexists. split; [reflexivity|]. split; [reflexivity|]. cbn [dat]. rewrite step_fun2par_colQ_length. cbn; lia.
+Qed.
+
+(* ---------------- MappedGeometry with a matrix map: column-wise on batches ---------------- *)
+(* whenever the wrapped geometry's par2fun is column-wise on a batch (hypothesis: its value b and its columns), so is
+   the mapped geometry's: column j of M @ par2fun(P) is M @ par2fun(column j of P) *)
+Theorem mappedlin_columnwise g M Mi pd k (a b : arr Qc) :
+  shp b = [mat_cols M; k] -> g_par2fun g a = Some b ->
+  (forall j, (j < k)%nat -> g_par2fun g (mkArr [pd] (col_of 0%Qc pd k j (dat a)))
+                            = Some (mkArr [mat_cols M] (col_of 0%Qc (mat_cols M) k j (dat b)))) ->
+  exists c, g_par2fun (GMappedLin g M Mi) a = Some c /\ shp c = [length M; k] /\ length (dat c) = (length M * k)%nat /\
+    forall j, (j < k)%nat ->
+      g_par2fun (GMappedLin g M Mi) (mkArr [pd] (col_of 0%Qc pd k j (dat a)))
+      = Some (mkArr [length M] (col_of 0%Qc (length M) k j (dat c))).
+Proof.
+  intros Sb Eb Hcols.
+  destruct (matmap_columnwise M (mat_cols M) k b eq_refl Sb) as [c [E1 [E2 [E3 E4]]]].
+  exists c. cbn [g_par2fun]. rewrite Eb. cbn [obind]. split; [exact E1|]. split; [exact E2|]. split; [exact E3|].
+  intros j Hj. rewrite (Hcols j Hj). cbn [obind]. apply E4. exact Hj.
+Qed.
+
+(* instance: over the identity geometries (Continuous1D, Discrete) the hypothesis is trivially true *)
+Theorem mappedlin_columnwise_cont1d n M Mi k (a : arr Qc) : n = mat_cols M -> shp a = [n; k] ->
+  exists c, g_par2fun (GMappedLin (GCont1D n) M Mi) a = Some c /\ shp c = [length M; k] /\ length (dat c) = (length M * k)%nat /\
+    forall j, (j < k)%nat ->
+      g_par2fun (GMappedLin (GCont1D n) M Mi) (mkArr [n] (col_of 0%Qc n k j (dat a)))
+      = Some (mkArr [length M] (col_of 0%Qc (length M) k j (dat c))).
+Proof.
+  intros Hn Hs. apply (mappedlin_columnwise (GCont1D n) M Mi n k a a).
+  - rewrite Hs, Hn. reflexivity.
+  - reflexivity.
+  - intros j _. cbn [g_par2fun]. rewrite Hn. reflexivity.
 Qed.
